@@ -13,7 +13,10 @@ import (
 	"strconv"
 	"strings"
 	"sync"
+	"syscall"
+	"time"
 
+	"verifharness/internal/bin"
 	"verifharness/internal/choose"
 	"verifharness/internal/ev"
 	"verifharness/internal/pool"
@@ -720,6 +723,7 @@ func c10Check(tier string) int {
 			run.Report(v)
 		}
 	})
+	run.Set("real_signal_invocations", c10Signals(run))
 	var states, traced, events, cstates, cpoints, conts int64
 	outcomes := map[string]int64{}
 	per := map[string]any{}
@@ -815,4 +819,98 @@ func c10Replay(path string) int {
 	}
 	fmt.Println("no violation on replay")
 	return 0
+}
+
+// c10Signals: the built binary really is killed - with SIGKILL and with the signals a
+// user or a supervisor sends (TERM, INT, HUP, QUIT) - while a command of a task is
+// blocked (an external process / a shell builtin; in the middle / as the last command).
+// The task did not complete, so the next invocation must run it again (or stop with an
+// explicit cache error).
+func c10Signals(run *ev.Run) int64 {
+	root := filepath.Join(pool.Scratch, "c10sig")
+	t := bin.Tree{Root: root}
+	var calls int64
+	sigs := []syscall.Signal{syscall.SIGKILL, syscall.SIGTERM, syscall.SIGINT, syscall.SIGHUP, syscall.SIGQUIT}
+	for _, sig := range sigs {
+		for _, shape := range []string{"external-last", "external-middle", "builtin-last", "builtin-middle"} {
+			t.Reset()
+			proj := t.Mkdir("home/w/proj")
+			ctl := t.Mkdir("ctl")
+			home := filepath.Join(root, "home")
+			blocker := "cat \"$VCTL/fifo\""
+			if strings.HasPrefix(shape, "builtin") {
+				blocker = "read -r VX < \"$VCTL/fifo\""
+			}
+			body := "    echo ta:1 >> \"$VLOG\"\n    " + blocker + "\n"
+			if strings.HasSuffix(shape, "middle") {
+				body += "    echo ta:3 >> \"$VLOG\"\n"
+			}
+			t.File("home/w/proj/spokfile", "task ta(\"a.txt\") {\n"+body+"}\n")
+			t.File("home/w/proj/a.txt", "v0\n")
+			fifo := filepath.Join(ctl, "fifo")
+			syscall.Mkfifo(fifo, 0o666)
+			os.Chmod(fifo, 0o666)
+			vlog := filepath.Join(ctl, "vlog")
+			env := []string{"VLOG=" + vlog, "VCTL=" + ctl}
+			cmd, _, se, err := bin.Start(proj, home, env, "ta")
+			if err != nil {
+				ev.Fatal("cannot start spok: %v", err)
+			}
+			calls++
+			// opening the FIFO for writing returns once the blocked command has opened it for reading
+			opened := make(chan *os.File, 1)
+			go func() {
+				f, _ := os.OpenFile(fifo, os.O_WRONLY, 0)
+				opened <- f
+			}()
+			var w *os.File
+			select {
+			case w = <-opened:
+			case <-time.After(20 * time.Second):
+				cmd.Process.Kill()
+				cmd.Wait()
+				ev.Fatal("the task command never opened the FIFO (shape %s): %s", shape, se.String())
+			}
+			cmd.Process.Signal(sig)
+			done := make(chan struct{})
+			go func() { cmd.Wait(); close(done) }()
+			select {
+			case <-done:
+			case <-time.After(5 * time.Second):
+				// still alive: let the blocked command see end-of-file, then insist
+			}
+			if w != nil {
+				w.Close()
+			}
+			select {
+			case <-done:
+			case <-time.After(10 * time.Second):
+				cmd.Process.Kill()
+				<-done
+			}
+			// next invocation: the FIFO is replaced by a plain file, nothing blocks any more
+			os.Remove(fifo)
+			os.WriteFile(fifo, []byte("x\n"), 0o666)
+			os.Remove(vlog)
+			o := bin.Run(proj, home, env, "ta", "--json")
+			calls++
+			key := fmt.Sprintf("signal %v %s", sig, shape)
+			c := map[string]any{"signal": sig.String(), "shape": shape}
+			switch {
+			case o.Died():
+				run.Report(ev.Violation{Key: key, Class: "panic-after-crash", What: fmt.Sprintf("after spok was sent %v while a %s command of task ta was blocked, the next invocation died: %s", sig, shape, firstLines(o.Stderr, 3)), Case: c})
+			case o.Exit != 0:
+				if !strings.Contains(strings.ToLower(o.Stderr), "cache") {
+					run.Report(ev.Violation{Key: key, Class: "unexplained-error-after-crash", What: fmt.Sprintf("after %v during a %s command the next invocation fails without naming the cache: %s", sig, shape, firstLine(strings.TrimSpace(o.Stderr))), Case: c})
+				}
+			default:
+				ran := strings.Contains(strings.Join(readLog(vlog), ","), "ta:1")
+				if strings.Contains(o.Stdout, `"skipped":true`) || !ran {
+					run.Report(ev.Violation{Key: key, Class: "skipped-never-succeeded", What: fmt.Sprintf("spok was sent %v while the %s command of task ta was still running, so ta never completed; the next invocation nevertheless reports it skipped (%s)", sig, shape, clip(o.Stdout)), Case: c})
+				}
+			}
+		}
+	}
+	os.RemoveAll(root)
+	return calls
 }
